@@ -88,3 +88,21 @@ pub fn mk_cfg(r: &mut R, css: bool) -> Cfg {
 pub fn case(html: impl Into<Vec<u8>>, cfg: Cfg, width: usize, stream: &'static str) -> Case {
     Case::new(html, cfg, width, stream)
 }
+
+/// the first line at which two observations differ, for reports
+pub fn first_diff(a: &Obs, b: &Obs) -> String {
+    match (a.lines(), b.lines()) {
+        (Some(x), Some(y)) => {
+            let n = x.len().max(y.len());
+            for i in 0..n {
+                let l = x.get(i).map(|l| crate::obs::line_text_frags(l));
+                let r = y.get(i).map(|l| crate::obs::line_text_frags(l));
+                if l != r {
+                    return format!("first difference at line {i} of {}/{}: {:?} vs {:?}", x.len(), y.len(), l, r);
+                }
+            }
+            "no difference".into()
+        }
+        _ => format!("{} vs {}", a.class(), b.class()),
+    }
+}
